@@ -3,7 +3,8 @@
 ("seed <id> check <prop>: exit=<rc>" followed by VIOLATION/TOOL lines)."""
 import json, os, re, sys
 rows, cur = [], None
-for ln in open(sys.argv[1], errors="replace"):
+import itertools
+for ln in itertools.chain.from_iterable(open(f, errors="replace") for f in sys.argv[1:]):
     m = re.match(r"seed (\S+) check (\S+): exit=(\d+)", ln)
     if m:
         cur = dict(seed=m.group(1), prop=m.group(2), rc=int(m.group(3)), obl=[], repro=False); rows.append(cur); continue
@@ -20,6 +21,9 @@ def what(seed):
         return ", ".join(os.path.basename(f) for f in files)
     except Exception:
         return ""
+last = {}
+for r in rows: last[(r["seed"], r["prop"])] = r          # a later run of the same (seed, check) replaces an earlier one
+rows = sorted(last.values(), key=lambda r: (r["seed"].startswith("R-"), r["seed"], r["prop"]))
 print("| seeded change | touches | check | result | failed obligation(s) |")
 print("|---|---|---|---|---|")
 for r in rows:
